@@ -1,6 +1,8 @@
 package main
 
 import (
+	"encoding/hex"
+	"encoding/json"
 	"math/big"
 	"fmt"
 	"strings"
@@ -80,6 +82,30 @@ func genC07(e *emitter, tier string, seed uint64) {
 					for _, fl := range []int{0, fForkID, fForkID | fAfterGenesis, fStrictEnc} {
 						res := e.run("IX.total", fmt.Sprint(fl), hexE(rawPush(sig)), hexE(append(rawPush(k.pubC), 0xac)), d, fmt.Sprint(idx), "1000", "1")
 						e.note("sighash-edge." + strings.Fields(res)[0])
+					}
+				}
+			}
+		}
+	}
+	// a checked input that comes out of the library's own JSON decoder, previous-transaction ids of every length
+	{
+		k := genKey(r)
+		lock := append(rawPush(k.pubC), 0xac)
+		txs := genSigTx(r, 2, 2, false)
+		d := descTx(txs)
+		for idx := 0; idx < 2; idx++ {
+			js, err := json.Marshal(txs.Inputs[idx])
+			if err != nil {
+				panic(err)
+			}
+			good := hex.EncodeToString(txs.Inputs[idx].PreviousTxID())
+			for _, id := range []string{good, "", "00", good[:62], good + "00", good + good, "zz"} {
+				text := strings.Replace(string(js), `"`+good+`"`, `"`+id+`"`, 1)
+				for _, ht := range []byte{0x41, 0x01} {
+					sig := signFor(txs, idx, lock, 1000, ht, k, false)
+					for _, fl := range []int{fForkID, 0, fAfterGenesis | fForkID} {
+						res := e.runIsolated("IX.totaljson", fmt.Sprint(fl), hexE(rawPush(sig)), hexE(lock), d, fmt.Sprint(idx), "1000", hex.EncodeToString([]byte(text)))
+						e.note("json-context." + strings.Fields(res)[0])
 					}
 				}
 			}
